@@ -534,7 +534,13 @@ void worker_loop(int wid, int level, int maxlevel, int maxworkers, Bounds B, con
         if (o.status == ST_NONDET) {
             // a reused runner may carry state from the previous execution: retry once in a fresh process
             if (g_reuse) { o = run_child(T, it.prefix, false, false, true); npts = T->npts; __sync_fetch_and_add(&S->retries_fresh, 1); }
-            if (o.status == ST_NONDET) { set_broken(std::string("NONDETERMINISM: ") + o.detail); break; }
+            if (o.status == ST_NONDET) {
+                // keep the diverging prefix for debugging (machinery error, never a violation)
+                mkdir(g_replaydir.c_str(), 0755);
+                std::string nm = g_replaydir + "/NONDET-" + pmc_property() + "-" + pmc_target() + ".json";
+                if (FILE* f = fopen(nm.c_str(), "w")) { fprintf(f, "{\"config\":\"%s\",\"detail\":\"%s\",\n \"choices\":%s}\n", g_config.c_str(), jesc(o.detail.c_str()).c_str(), choices_json(it.prefix.data(), it.prefix.size()).c_str()); fclose(f); }
+                set_broken(std::string("NONDETERMINISM: ") + o.detail + " (prefix in " + nm + ")"); break;
+            }
         }
         if (g_reuse && g_selfcheck && o.status == ST_OK && nexec % g_selfcheck == 0) {
             // machinery self-check (not a deciding step): same choices in a fresh process must give the same observation
